@@ -1,8 +1,32 @@
-import GceTcb.Base.Line
-/- Driver handler for stream `c06` (stub: replaced when the property's model lands). -/
+import GceTcb.Drive.EndorseIO
+/-
+Driver handler for stream `c06`.  The measurement functions are instantiated by the tables on the
+protocol line (computed by the harness with direct calls of sev.LaunchDigest / tdx.MRTD, not through
+the endorse pipeline); SHA-384 by the executable Lean SHA-384; UUID parsing by a Lean transcription
+of google/uuid.Parse.
+-/
 namespace GceTcb.Drive.C06
-open GceTcb
+open GceTcb GceTcb.Endorse GceTcb.Drive.IO
 
-def handle (_f : Fields) : String := "unimplemented"
+def handle (f : Fields) : String :=
+  match f.get "op" with
+  | "endorse" =>
+    match goldenMeasurement (mkPrims f) genTables (parseCtx f) with
+    | .ok g =>
+      let signed :=
+        if f.bool "sign" then
+          match signDoc (parseKeys f) (parseTsField (f.get "ts")) g with
+          | .ok (d, _) => "[" ++ showGolden d ++ "]"
+          | .err _ => "reject"
+          | .panic _ => "panic"
+        else "-"
+      s!"golden=[{showGolden g}] signed={signed}"
+    | .err _ => "golden=reject signed=-"
+    | .panic _ => "golden=panic signed=-"
+  | "uuid" =>
+    match parseUuid (f.get "s") with
+    | some b => "ok " ++ hexEncode b
+    | none => "reject"
+  | _ => "bad-op"
 
 end GceTcb.Drive.C06
